@@ -227,13 +227,21 @@ func (d *Decoder) DecodeWithOption(v interface{}, optFuncs ...DecodeOptionFunc) 
 		return err
 	}
 	if err := d.s.PrepareForDecode(); err != nil {
+		if rerr := d.s.ReadError(); rerr != nil {
+			return rerr
+		}
 		return err
 	}
 	s := d.s
 	for _, optFunc := range optFuncs {
 		optFunc(s.Option)
 	}
-	if err := dec.DecodeStream(s, 0, header.ptr); err != nil {
+	err = dec.DecodeStream(s, 0, header.ptr)
+	// a reader failure looks like the end of the input to the scanners: report it, not what they made of it
+	if rerr := s.ReadError(); rerr != nil {
+		return rerr
+	}
+	if err != nil {
 		return err
 	}
 	s.Reset()
